@@ -233,7 +233,61 @@ def check_closed_forms(chk, F, types=TYPES, tag="closed"):
                             except Unsupported as ex:
                                 chk.undecide(kp + "|f%d->f%d" % (k, k + 1), "unsupported: %s" % ex, body_loc(F, body))
     chk.count("derivative links", n_links)
+    new_closed_forms(chk, F, types, tag)
     return n_links
+
+
+KNOWN_ITEMS = None
+
+
+def new_closed_forms(chk, F, types, tag):
+    """interface items the tables do not know (a NEW elementary function): whatever real function they compute, their closed form must
+    be internally consistent — the chain rule is applied to self with order+1 values and f(k+1) is the formal derivative of f(k)"""
+    known = set(UNARY) | {"log", "powi", "powf", "powd", "sin_cos", "tan", "tanh", "atan2", "sph_j0", "sph_j1", "sph_j2", "mul_add", "re",
+                          "from_inner", "recip", "sqrt", "cbrt"}
+    for ty in types:
+        imp = dualnum_impl(F, ty)
+        if imp is None:
+            continue
+        sp = Spec(ty)
+        order = ORDER[ty]
+        for it_ in imp["items"]:
+            name = it_["name"]
+            body = F.bodies.get(it_["did"])
+            if name in known or body is None or len(body.get("params", [])) != 1:
+                continue
+            kp = "%s|%s|%s(new item)" % (tag, ty, name)
+            try:
+                paths = run_paths(F, body, method_args(F, body, sp), hooks=[chain_hook(ty)], oracle=sample_oracle({("c", "EPS"): EPS_VALUE}))
+            except Unsupported as ex:
+                chk.undecide(kp, "unsupported: %s" % ex, body_loc(F, body))
+                continue
+            for ctx, val, it, args in paths:
+                cc = unref(val)
+                if not (isinstance(cc, Rec) and cc.adt == "ChainCall"):
+                    chk.undecide(kp, "unsupported: a new interface item that is not of the closed-form shape (f0.. passed to the chain rule)",
+                                 body_loc(F, body))
+                    break
+                fs = [unref(f) for f in cc.f["fs"].vs]
+                opnd = unref(cc.f["operand"])
+                same = isinstance(opnd, Rec) and all(
+                    equal(value_part_poly(opnd, fl), value_part_poly(sp.operand("self"), fl)) for fl, _ in sp.parts())
+                chk.ob(kp + "|operand", same, "the chain rule is applied to self", body_loc(F, body), found=repr(opnd)[:200], nontrivial=False)
+                chk.ob(kp + "|arity", len(fs) == order + 1, "exactly order+1 derivative values are passed", body_loc(F, body),
+                       found=len(fs), required=order + 1, nontrivial=False)
+                if not all(isinstance(f, Sc) for f in fs):
+                    continue
+                for k in range(min(len(fs), order + 1) - 1):
+                    try:
+                        d = diff(fs[k].v, dx)
+                        ok = decide_equal(chk, kp + "|f%d->f%d" % (k, k + 1), fs[k + 1].v, d, body_loc(F, body))
+                        if ok is not None:
+                            chk.ob(kp + "|f%d->f%d" % (k, k + 1), ok, "f%d is the derivative of f%d with respect to the real part "
+                                   "(whatever function the new item computes)" % (k + 1, k), body_loc(F, body),
+                                   found=fs[k + 1].v.show()[:200], required=d.show()[:200])
+                    except Unsupported as ex:
+                        chk.undecide(kp + "|f%d->f%d" % (k, k + 1), "unsupported: %s" % ex, body_loc(F, body))
+            chk.count("new closed-form items")
 
 
 def end_to_end(chk, F, ty, name, tag, real_of, n_operands=1, exponent_case=None, all_presence=True,
